@@ -16,7 +16,7 @@ from vlib import OkV
 from ppci import ir
 
 EXTRA_KINDS = ('triangle', 'emptychain', 'tailself', 'blobmix', 'constjump', 'addzero', 'twins', 'globcall',
-               'globwrite', 'alias', 'pun')
+               'globwrite', 'alias', 'pun', 'widefold')
 FEATS_QUICK = irgen.SAFE_FEATURES + ('copyblob', 'extern') + EXTRA_KINDS
 
 
@@ -176,6 +176,50 @@ class FnGen2(irgen.FnGen):
             y1 = self.emit(ir.Binop(y, '+', one, self.nm('tw'), t))
             env.setdefault(t, []).append(self.emit(ir.Binop(x, '^', y1, self.nm('twx'), t)))
             self.observe(env, t)
+        elif kind == 'widefold':
+            # constant expressions on in-range but WIDE constants (the folder must be exact beyond 2^53)
+            wt = rng.choice([ir.i64, ir.u64, ir.i64, ir.u64, t])
+            lo, hi = irgen.rng_range(wt)
+            pool = [hi, hi - 1, hi - 58, lo, lo + 1, hi // 2 + 1, hi // 3, (1 << 53) + 1, (1 << 53) - 1, (1 << 62) + 3,
+                    (1 << 53) + 12345, 1000000007 * 1000000009, -(1 << 53) - 1, -(1 << 62) - 7, -(1 << 53) + 1]
+            pool = [v for v in pool if lo <= v <= hi]
+            a = rng.choice(pool)
+            op = rng.choice(['%', '%', '/', '+', '-', '*', '<<', '>>', '%'])
+            if op in ('%', '/'):
+                b = rng.choice([10, 3, 7, 1000000007, (1 << 31) - 1, (1 << 53) + 1, 97] + ([-3, -1000000007] if wt.signed else []))
+                b = min(b, hi)
+                if wt.signed and a == lo and b == -1:
+                    b = 3
+            elif op in ('<<', '>>'):
+                b = rng.randint(0, wt.bits - 1)
+            else:
+                b = rng.choice(pool)
+            ca, cb = self.const(wt, a), self.const(wt, b)
+            v = self.emit(ir.Binop(ca, op, cb, self.nm('wf'), wt))
+            env.setdefault(wt, []).append(v)
+            self.observe(env, wt)
+            r = rng.random()
+            if r < 0.35:
+                # cast of a wide constant to a narrower type and back
+                nt = rng.choice([x for x in irgen.INT_TYPES if x.bits < wt.bits] or [wt])
+                n1 = self.emit(ir.Cast(ca, self.nm('wn'), nt))
+                env.setdefault(nt, []).append(n1)
+                self.observe(env, nt)
+                w2 = self.emit(ir.Cast(n1, self.nm('ww'), wt))
+                env[wt].append(w2)
+                self.observe(env, wt)
+            elif r < 0.7:
+                # chain (y + c1) + c2 / (y - c1) - c2 with wide constants
+                y = self.get(env, wt) if wt in self.types else v
+                o2 = rng.choice(['+', '-'])
+                inner = self.emit(ir.Binop(y, o2, self.const(wt, rng.choice(pool)), self.nm('wc'), wt))
+                outer = self.emit(ir.Binop(inner, o2, self.const(wt, rng.choice(pool)), self.nm('wc'), wt))
+                env[wt].append(outer)
+                self.observe(env, wt)
+            # make the value reach a type the function works with
+            tt = rng.choice(self.types)
+            if tt is not wt:
+                env.setdefault(tt, []).append(self.emit(ir.Cast(env[wt][-1], self.nm('wr'), tt)))
         elif kind in ('alias', 'pun'):
             size = t.bits // 8
             bases = [(p, s) for p, s in self.allocs if s >= 2 * size]
